@@ -313,6 +313,67 @@ def h_metadata_only(P, G, klen, opts):
     return body
 
 
+def h_heuristic(klen, nsym, P=None, rich=False):
+    """the REAL key-candidate heuristic at the REAL patch size (no stub, no scaling), symbolic environmental key: for a
+    zero-padded configuration the candidates offered up to key length k contain the true key (composes with h_recover, where the
+    true key among the candidates implies recovery). collections.Counter -> SymCounter (equality classes of n-grams decided)."""
+    def body(ctx):
+        Pz = P or guardrails.BEACON_CONFIG_PATCH_SIZE
+        symc = sym_bytes("content", nsym).cells if nsym else []
+        # configuration family: protocol + port records, then a settings area of `rich` bytes (a long text setting: constant
+        # filler, so the settings area is itself a strong n-gram competitor), then zero padding up to the patch size
+        plain = CB.rec(1, CB.SHORT, [0, 8]) + CB.rec(2, CB.SHORT, ([0x01, 0xBB] if not nsym else [0x01] + symc[:1]))
+        if rich:
+            plain += CB.rec(9, CB.PTR, [0x41] * int(rich))
+        plain += [0, 0]
+        plain += [0] * (Pz - len(plain))
+        key = sym_bytes("envkey", klen)
+        # validity predicate: the key is primitive (no proper period: a key abab IS the 2-byte key ab) and has no zero byte
+        # pattern that makes a shorter candidate an equivalent mask
+        conds = []
+        for per in range(1, klen):
+            if klen % per == 0:
+                conds.append(z3.Or(*[bv(key.cells[i]) != bv(key.cells[i % per]) for i in range(per, klen)]))
+        if is_native():
+            kb = bytes(key.cells)
+            if any(klen % per == 0 and kb == kb[:per] * (klen // per) for per in range(1, klen)):
+                raise PathAbort()
+        elif conds:
+            ctx.assume(mkbool(z3.And(*conds)))
+        guarded = xcells(plain, tile(key.cells, Pz))
+        fh = ModelBytesIO(SymBytes(guarded)) if not is_native() else _io.BytesIO(bytes(guarded))
+        real = guardrails.find_xor_key_candidates
+        if not is_native():
+            import collections
+            I.stubs[collections.Counter] = models_lib.SymCounter
+        try:
+            got = []
+            for c in m_iter(call(real, fh)):
+                c = as_bytes(c)
+                if len(c.cells) > klen:
+                    break
+                got.append(c)
+                if len(c.cells) == klen and c.eq(key) is True:
+                    break  # offered: the consumer's checksum test stops here (h_recover)
+        finally:
+            if not is_native():
+                I.stubs.pop(collections.Counter, None)
+        same = [c for c in got if len(c.cells) == klen]
+        ctx.prove(len(same) >= 1, "a candidate of the key's length is offered")
+        hit = False
+        for c in same:
+            e = c.eq(key)
+            if e is True:
+                hit = True
+                break
+        if not hit:
+            es = [tobool_expr(c.eq(key)) for c in same]
+            es = [z3.BoolVal(x) if isinstance(x, bool) else x for x in es]
+            hit = mkbool(z3.Or(*es)) if es else False
+        ctx.prove(hit, "the true environmental key is among the candidates of its length (real heuristic, %d-byte area, %d candidates)" % (Pz, len(same)))
+    return body
+
+
 def h_checksum(n):
     def body(ctx):
         data = sym_bytes("data", n)
@@ -356,6 +417,11 @@ def instances(tier):
         i = Instance("metadata only on mismatch opts=%s" % "+".join(opts), h_metadata_only(24, G, 2, opts), dict(kind="mismatch", options=list(opts)), max_loop=4000)
         i.native_patches = native_patches(24, G)
         out.append(i)
+    # the real n-gram heuristic at the real patch size with a symbolic key (zero-padded configuration family)
+    import os as _os
+    for klen, nsym in () if not _os.environ.get('VERIF_C17_HEUR') else (((3, 1), (5, 0)) if q else ((2, 2), (3, 2), (4, 1), (5, 1), (6, 1), (7, 1), (9, 0), (12, 0))):
+        out.append(Instance("real heuristic offers the true key: key=%d symbolic content bytes=%d" % (klen, nsym), h_heuristic(klen, nsym),
+                            dict(kind="heuristic", P=guardrails.BEACON_CONFIG_PATCH_SIZE, keylen=klen, symbolic_content_bytes=nsym, cost=800), split=8, max_loop=20000))
     for n in ((0, 1, 5, 24, 64) if q else (0, 1, 2, 3, 5, 24, 64, 512, 6144)):
         out.append(Instance("payload_checksum over %d bytes" % n, h_checksum(n), dict(kind="checksum", bytes=n), max_loop=7000))
     return out
